@@ -25,7 +25,7 @@ type rtSpec struct {
 
 func rtViolate(r *xs.Result, ci *chainIndex, kind, key string, h types.Hash, what string) {
 	r.Violate("C18:json-roundtrip:"+kind+":"+key, fmt.Sprintf("chain %q %s %v: %s", ci.name, kind, h, what),
-		map[string]interface{}{"part": "b", "b": rtSpec{ci.name, kind, h.String()}})
+		map[string]interface{}{"tier": curTier, "part": "b", "b": rtSpec{ci.name, kind, h.String()}})
 }
 
 func rtBlock(r *xs.Result, ci *chainIndex, ledger *api.LedgerApi, b *nom.AccountBlock) {
@@ -35,6 +35,7 @@ func rtBlock(r *xs.Result, ci *chainIndex, ledger *api.LedgerApi, b *nom.Account
 		}
 	}()
 	r.Count("b_roundtrips", 1)
+	r.Add("nontrivial", digest([]byte("b|block|"+ci.name+"|"+b.Hash.String())))
 	want, err := b.Serialize()
 	if err != nil {
 		panic(err)
@@ -82,6 +83,9 @@ func rtBlock(r *xs.Result, ci *chainIndex, ledger *api.LedgerApi, b *nom.Account
 		rtViolate(r, ci, "block", "rpc-invalid-json", b.Hash, "MarshalJSON produced invalid JSON")
 		return
 	}
+	if len(b.Data) > 0 {
+		sampleOnce(r, "b", map[string]interface{}{"tier": curTier, "part": "b", "chain": ci.name, "block_json": clip(string(js), 700)})
+	}
 	back := new(api.AccountBlock)
 	if err := json.Unmarshal(js, back); err != nil {
 		rtViolate(r, ci, "block", "rpc-unmarshal-error", b.Hash, err.Error())
@@ -117,6 +121,7 @@ func rtMomentum(r *xs.Result, ci *chainIndex, ledger *api.LedgerApi, d *nom.Deta
 		}
 	}()
 	r.Count("b_roundtrips", 1)
+	r.Add("nontrivial", digest([]byte("b|momentum|"+ci.name+"|"+m.Hash.String())))
 	r.Add("b_kinds", fmt.Sprintf("momentum|content%v|data%v", len(m.Content) > 0, len(m.Data) > 0))
 	want, err := m.Serialize()
 	if err != nil {
@@ -235,6 +240,7 @@ func rtVariants(r *xs.Result, ci *chainIndex, b *nom.AccountBlock) {
 			va.mut(v)
 			r.Count("b_roundtrips", 1)
 			r.Count("b_variant_roundtrips", 1)
+			r.Add("nontrivial", digest([]byte("b|variant|"+va.name+"|"+ci.name+"|"+b.Hash.String())))
 			r.Add("b_kinds", "variant|"+va.name)
 			want, err := v.Serialize()
 			if err != nil {
